@@ -30,7 +30,8 @@ RULE = ("job = seed -> history of <= 9 operations over one client and two "
         ' Servers are long-lived (cache ring pre-aged by a drawn number of writes), may hold an external TLS 1.3 PSK next to the ticket keys (client offering both), and the operator may change the server cipher policy between connections.'
         ' Connections may be held open concurrently and released later in any order (enumerated shared-session skeleton: two connections on one session ending in every order and way); invalidation is sticky in the model; both sides may meanwhile support TLS 1.3 (version upgrade); handshakes may be abandoned mid-flight (invariant: only sessions of completed handshakes sit in a cache as resumable entries).'
         ' Both ends of a resumed connection must hold the same master secret and exporter output; a ticket may be offered across a HelloRetryRequest (client without key shares).'
-        ' ALPN is configured on all connections; a resumption may leave it out of the offer - both ends must agree on the protocol (or its absence) afterwards.')
+        ' ALPN is configured on all connections; a resumption may leave it out of the offer - both ends must agree on the protocol (or its absence) afterwards.'
+        ' A client that fails before its ClientHello when offering a stored session (anything but the documented ValueError) is a broken fallback.  A held connection may die with a fatal alert after the next handshake call was made and before that call runs its first step (late invalidation).')
 LEVEL_TEXT = ("Seeded exploration of connection histories; simulated time "
               "covers hours to days per history at millisecond cost, which "
               "is what makes expiry, rotation and skew reachable.  The "
@@ -49,7 +50,7 @@ PROBES = ["resumed_id", "resumed_ticket10", "resumed_ticket13",
           "crash", "changed_hello", "client_auth_resumed", "api_refused",
           "external_psk", "external_psk_over_ticket", "policy_changed",
           "policy_excludes_session", "held_open", "version_upgrade",
-          "abandoned_handshake", "offer_across_hrr"]
+          "abandoned_handshake", "offer_across_hrr", "late_invalidation"]
 COMPONENTS_REAL = ["tlslite client/server resumption paths, SessionCache, "
                    "ticket encryption/decryption, Session/Ticket objects"]
 COMPONENTS_STUB = ["socket", "os.urandom", "time.time (per-node SimClock)"]
@@ -162,7 +163,7 @@ def run(job, streams=None):
         viol.append({"rule": rule, "sig": sig,
                      "msg": msg + " [history=%s]" % json.dumps(hist)})
 
-    def connect(sname, ver, fl, offer, mods):
+    def connect(sname, ver, fl, offer, mods, before_run=None):
         """One connection.  Returns info dict."""
         S = srv[sname]
         i = nconn[0]
@@ -219,6 +220,14 @@ def run(job, streams=None):
             sim.eps.remove(pair.c)
             sim.eps.remove(pair.s)
             return info
+        if before_run is not None:
+            # the handshake operations exist (the application has called
+            # handshakeClient...(session=...)) but have not run a step yet
+            sim.eps.remove(pair.c)
+            sim.eps.remove(pair.s)
+            before_run()
+            sim.eps.append(pair.c)
+            sim.eps.append(pair.s)
         st = sim.run()
         info["oc"], info["os"], info["st"] = oc, os_, st
         info["ok"] = oc.kind == "ok" and os_.kind == "ok"
@@ -364,11 +373,17 @@ def run(job, streams=None):
                 fl = "plain"
             offer = None
             mods = {}
+            late_release = None
             if stored and ch.draw(4, "h.offer") != 3:
                 offer = stored[ch.draw(len(stored), "h.which")]
                 if held and ch.draw(2, "h.offerheld") == 1:
                     # the session of a connection that is still open
-                    offer = held[ch.draw(len(held), "h.whichheld")][1]
+                    hk = ch.draw(len(held), "h.whichheld")
+                    offer = held[hk][1]
+                    if ch.draw(3, "h.late") == 1:
+                        # ... which dies with a fatal alert after the new
+                        # handshake call was made, before it runs
+                        late_release = held.pop(hk)
                 ver = offer["ver"]
                 fl = offer.get("fl", fl) if fl == "srp" or \
                     offer.get("fl") == "srp" else fl
@@ -420,7 +435,16 @@ def run(job, streams=None):
                 continue
             hist.append(["connect", sname, list(ver), fl,
                          offer["idx"] if offer else None, mods, end])
-            info = connect(sname, ver, fl, offer, mods)
+            br = None
+            if late_release is not None:
+                how_l = ["fatal_c", "fatal_s"][ch.draw(2, "h.latehow")]
+                hist.append(["released_before_first_step",
+                             late_release[1]["idx"], how_l])
+                probes["late_invalidation"] = 1
+
+                def br(lr=late_release, how_=how_l):
+                    release(lr[0], lr[1], how_)
+            info = connect(sname, ver, fl, offer, mods, br)
             S = srv[sname]
             if info["api_refused"]:
                 probes["api_refused"] = 1
@@ -636,6 +660,17 @@ def judge_attempt(info, offer, S, mods, sname, v, probes, srv):
     # ---- which mechanism did the client put on the wire?
     chh = info["obs"].get("ch_first") or info["obs"].get("ch")
     if chh is None:
+        # the client gave up before it sent anything (API-level refusals of
+        # the offered session were sorted out before)
+        e = info["oc"].exc if info["oc"].kind == "exc" else None
+        if e is not None and isinstance(e, ValueError):
+            probes["api_refused"] = 1       # documented refusal of the offer
+        elif e is not None:
+            from sim.trace import where
+            v("fallback_broken", "before_hello|%s|%s" % (type(e).__name__,
+                                                         where(e)),
+              "offering a stored session made the client fail before its "
+              "ClientHello: %r" % (e,))
         return
     ext = chh["ext"]
     mech = None
